@@ -9,6 +9,8 @@ def explore(run, lean):
     run.extra["rule"] = ("random queued charts (<=8 states) whose handlers post/defer/recall/scribble, capacities 1-5 and 500, "
                          "scripts of start_at + 3-14 client ops (post_fifo, post_lifo, defer, recall, next_rtc, complete_circuit); "
                          "non-trivial = the script contains an operation the property speaks about; distinct by canonical JSON")
+    ROUND6_RULE = '; failing steps raise one of twelve exception types (IndexError, KeyError, StopIteration, ...): the exception reaches the caller, complete_circuit never returns normally with events pending'
+    run.extra["rule"] += ROUND6_RULE
 
 
 def replay(case):
